@@ -57,3 +57,47 @@ Section Confine.
   Theorem all_confined ws : forallb confinedb ws = true -> forall w, In w ws -> confined w.
   Proof. rewrite forallb_forall. intros H w Hw. apply confinedb_sound. auto. Qed.
 End Confine.
+
+(* ---------------------------------------------------------------- objects that are shared WITHOUT a lock are read-only
+   The Load-time objects (rule set, compiled patterns, matchers, bytecode functions ...) are reachable from every run.
+   If every write site is confined (owned by the run, or lock-guarded) and no Load-time struct is an owner that
+   confinement admits, then no write site stores into a Load-time object. *)
+Section ReadOnly.
+  Variable per_run : list string.
+  Variable guarded : list (string * string).
+  Variable inventory : list (string * list string).
+  Variable loadtime : list string.                      (* regenerated: struct types reachable from the loaded rule set *)
+
+  Definition admits (o : string) : bool :=
+    str_in o per_run || String.eqb o "local-ref" || existsb (fun g => String.eqb o (fst g)) guarded.
+
+  Definition disjointb : bool := forallb (fun o => negb (admits o)) loadtime.
+
+  Lemma confined_admits w : confined per_run guarded inventory w -> admits (snd (fst w)) = true.
+  Proof.
+    destruct w as [[fn owner] field]. unfold confined, admits. cbn [fst snd].
+    intros [[H _] | [H | H]].
+    - assert (E : str_in owner per_run = true).
+      { unfold str_in. rewrite existsb_exists. exists owner. split; [assumption | apply String.eqb_refl]. }
+      rewrite E. reflexivity.
+    - subst. rewrite String.eqb_refl. rewrite orb_true_r. reflexivity.
+    - assert (E : existsb (fun g => String.eqb owner (fst g)) guarded = true).
+      { rewrite existsb_exists. exists (owner, field). split; [assumption | apply String.eqb_refl]. }
+      rewrite E. apply orb_true_r.
+  Qed.
+
+  Theorem loadtime_read_only ws :
+    forallb (confinedb per_run guarded inventory) ws = true -> disjointb = true ->
+    forall w, In w ws -> ~ In (snd (fst w)) loadtime.
+  Proof.
+    intros Hc Hd w Hw Hin.
+    pose proof (all_confined per_run guarded inventory ws Hc w Hw) as C.
+    apply confined_admits in C.
+    unfold disjointb in Hd. rewrite forallb_forall in Hd. specialize (Hd _ Hin).
+    rewrite C in Hd. discriminate.
+  Qed.
+End ReadOnly.
+
+(* substring test (field types that mention a synchronisation primitive) *)
+Fixpoint has_sub (p s : string) : bool :=
+  if String.prefix p s then true else match s with EmptyString => false | String _ r => has_sub p r end.
